@@ -951,6 +951,10 @@ def Commandable(
                             Commandable._debug("    - write a value")
 
                         if issubclass(datatype, Enumerated):
+                            if value not in datatype._xlate_table:
+                                raise ExecutionError(
+                                    errorClass="property", errorCode="valueOutOfRange"
+                                )
                             value = datatype._xlate_table[value]
                             if _debug:
                                 Commandable._debug(
